@@ -13,20 +13,29 @@ import WtfModel.Proofs.Validate
   `encodeGo cs` is the Go string holding code points `cs`; `isSpace` / `isControl` = `unicode.IsSpace` /
   `unicode.IsControl` (tables compared with the toolchain over all code points on every run);
   `isShellMeta` is membership in the property's list `< > | & ; $`;
-  `stripCtl` is the text after the control strip (U+000A and U+0009 are exempted by the code).
+  `stripCtl` is the text after the control strip (U+000A and U+0009 are exempted by the code; a byte that
+  is not valid UTF-8 is written as the one byte `Gen.Validate.invalidRepl` = `'?'`).
+
+  History (finding K01, repaired): the strip used to be `strings.Map`, which wrote U+FFFD — three bytes — for
+  every invalid byte; 334 × `FF` was accepted, came back 1002 bytes long and was rejected by a second
+  validation.  `idem` is now unconditional, `clean_bytes` too; `idem_old_witness` keeps the old input.
 -/
 namespace Wtf.C14
 open Wtf Wtf.Validate
 
 /-- What the theorems below need from the regenerated facts (`Gen.Constants`, `Gen.Validate`): the length
     limit is 1000, the largest limit 100, the default limit lies in 1..100, the rejected class is exactly
-    the property's six metacharacters, and every control character exempted from the strip is white space
-    (so it cannot survive `Fields`). -/
+    the property's six metacharacters, every control character exempted from the strip is white space
+    (so it cannot survive `Fields`), and the byte written for an invalid byte is a single ASCII byte that is
+    neither white space, nor a control character, nor a metacharacter (like U+FFFD, the value Go gives an
+    invalid byte, so that replacing does not change any test the function makes). -/
 theorem gen_facts_ok :
     maxQueryLength = 1000 ∧ maxLimit = 100 ∧ 1 ≤ defaultLimit ∧ defaultLimit ≤ 100 ∧
     (∀ c, isMeta c = isShellMeta c) ∧
-    Wtf.Gen.Validate.keptControls.all isSpace = true :=
-  ⟨by decide, by decide, by decide, by decide, isMeta_eq_shell, by decide⟩
+    Wtf.Gen.Validate.keptControls.all isSpace = true ∧
+    (Wtf.Gen.Validate.invalidRepl < 0x80 ∧ isSpace Wtf.Gen.Validate.invalidRepl = false ∧
+      isControl Wtf.Gen.Validate.invalidRepl = false ∧ isShellMeta Wtf.Gen.Validate.invalidRepl = false) :=
+  ⟨by decide, by decide, by decide, by decide, isMeta_eq_shell, by decide, by decide, by decide, by decide, by decide⟩
 
 /-! ## Acceptance -/
 
@@ -40,13 +49,16 @@ theorem accept_iff (q : Bytes) :
   simp only [isMeta_eq_shell]
   constructor
   · rintro ⟨h1, h2, ru, hru, hk, hs⟩
-    exact ⟨h1, h2, ru.val, mem_stripCtl.mpr ⟨hk, ru, hru, rfl⟩, hs⟩
+    rw [← kept_out] at hk; rw [← isSpace_out] at hs
+    exact ⟨h1, h2, ru.out, mem_stripCtl.mpr ⟨hk, ru, hru, rfl⟩, hs⟩
   · rintro ⟨h1, h2, c, hc, hs⟩
     obtain ⟨hk, ru, hru, rfl⟩ := mem_stripCtl.mp hc
+    rw [kept_out] at hk; rw [isSpace_out] at hs
     exact ⟨h1, h2, ru, hru, hk, hs⟩
 
 /-- The same with *all* control characters removed (the code keeps newline and tab, which are white space
-    and therefore irrelevant for blankness): some character is neither a control character nor white space. -/
+    and therefore irrelevant for blankness): some character is neither a control character nor white space.
+    Characters are those of the *input* as Go decodes it (an invalid byte is the character U+FFFD). -/
 theorem accept_iff_all_controls (q : Bytes) :
     (∃ r, validate q = .ok r) ↔
       q.length ≤ 1000 ∧ (∀ b ∈ q, isShellMeta b.toNat = false) ∧
@@ -56,10 +68,12 @@ theorem accept_iff_all_controls (q : Bytes) :
   constructor
   · rintro ⟨c, hc, hs⟩
     obtain ⟨hk, ru, hru, rfl⟩ := mem_stripCtl.mp hc
+    rw [kept_out] at hk; rw [isSpace_out] at hs
     exact ⟨ru.val, List.mem_map.mpr ⟨ru, hru, rfl⟩, not_control_of_kept_nonspace hk hs, hs⟩
   · rintro ⟨c, hc, hctl, hs⟩
     obtain ⟨ru, hru, rfl⟩ := List.mem_map.mp hc
-    exact ⟨ru.val, mem_stripCtl.mpr ⟨kept_of_not_control hctl, ru, hru, rfl⟩, hs⟩
+    rw [← isControl_out] at hctl; rw [← isSpace_out] at hs
+    exact ⟨ru.out, mem_stripCtl.mpr ⟨kept_of_not_control hctl, ru, hru, rfl⟩, hs⟩
 
 /-! ## Accepted queries are clean -/
 
@@ -111,67 +125,51 @@ theorem clean {q r : Bytes} (h : validate q = .ok r) :
     rw [hd, List.length_map]
     exact length_outOf_le _
 
-/-- Bytes: the result is at most as long as the input plus two bytes per invalid input byte (each is
-    replaced by the three bytes of U+FFFD); in particular it is not longer than a well-formed input. -/
-theorem clean_bytes {q r : Bytes} (h : validate q = .ok r) :
-    r.length ≤ q.length + 2 * badCount (decodeGo q) ∧ (validUTF8 q → r.length ≤ q.length) := by
-  obtain ⟨_, _, _, _, rfl⟩ := (validate_ok_iff q r).mp h
+/-- Bytes: the result is never longer than the input (in particular never longer than 1000 bytes).  "No more
+    characters than it had" therefore holds for both readings of "character": runes (`clean`) and bytes. -/
+theorem clean_bytes {q r : Bytes} (h : validate q = .ok r) : r.length ≤ q.length ∧ r.length ≤ 1000 := by
+  obtain ⟨_, hl, _, _, rfl⟩ := (validate_ok_iff q r).mp h
   have := bytes_outOf_le_go q
-  refine ⟨this, fun hv => ?_⟩
-  have hz : badCount (decodeGo q) = 0 := badCount_eq_zero hv
-  omega
+  rw [maxQueryLength_eq] at hl
+  exact ⟨this, by omega⟩
 
-/-- "No more characters than it had" is false for *bytes*: one invalid byte comes back as three. -/
-theorem bytes_can_grow : ∃ q r : Bytes, validate q = .ok r ∧ q.length < r.length :=
-  ⟨[0xFF], [0xEF, 0xBF, 0xBD], by decide, by decide⟩
+/-- What comes back, exactly: the characters of the input without the control characters (other than newline
+    and tab), each invalid byte replaced by `'?'`, split at white space and joined with single spaces. -/
+theorem result_chars {q r : Bytes} (h : validate q = .ok r) :
+    chars r = joinSp (fields (stripCtl (decodeGo q))) ∧ r = encodeGo (chars r) := by
+  obtain ⟨_, _, h3, h4, rfl⟩ := (validate_ok_iff q r).mp h
+  have hc := clean_outOf_go h3 h4
+  have hd : decodeGo (encodeGo (outOf (decodeGo q))) = (outOf (decodeGo q)).map .cp := decode_encode _ hc.scal
+  have hch : chars (encodeGo (outOf (decodeGo q))) = outOf (decodeGo q) := by
+    unfold chars; rw [hd]; simp [Rune.val, Function.comp_def]
+  rw [hch]
+  exact ⟨outOf_eq _, rfl⟩
 
 /-! ## Validating an already validated query -/
 
-/-- Exact form: a second validation returns the accepted text unchanged iff that text is at most 1000
-    bytes long; otherwise it is rejected as too long. -/
-theorem idem_iff {q r : Bytes} (h : validate q = .ok r) :
-    (validate r = .ok r ↔ r.length ≤ 1000) ∧ (1000 < r.length → validate r = .error .toolong) := by
+/-- Validating an already validated query returns it unchanged — for every byte string. -/
+theorem idem {q r : Bytes} (h : validate q = .ok r) : validate r = .ok r := by
+  have hl := (clean_bytes h).2
   obtain ⟨_, _, h3, h4, rfl⟩ := (validate_ok_iff q r).mp h
   have hc := clean_outOf_go h3 h4
-  have hv := validate_clean hc
-  rw [maxQueryLength_eq] at hv
-  constructor
-  · constructor
-    · intro h2
-      rw [hv] at h2
-      split at h2
-      · cases h2
-      · omega
-    · intro hl
-      rw [hv, if_neg (by omega)]
-  · intro hl
-    rw [hv, if_pos hl]
+  rw [validate_clean hc, maxQueryLength_eq, if_neg (by omega)]
 
-/-- FULL STATEMENT (false, see `idem_fails`):  ∀ q r, validate q = .ok r → validate r = .ok r.
-    Proved part: it holds whenever the input is well-formed UTF-8 (then the result is not longer than
-    the input), and more generally whenever the input has at most (1000 − |q|)/2 invalid bytes. -/
-theorem idem_partial {q r : Bytes} (h : validate q = .ok r)
-    (hq : validUTF8 q ∨ q.length + 2 * badCount (decodeGo q) ≤ 1000) : validate r = .ok r := by
-  apply (idem_iff h).1.mpr
-  have hl : q.length ≤ 1000 := by
-    have := ((validate_ok_iff q r).mp h).2.1; rwa [maxQueryLength_eq] at this
-  rcases hq with hv | hb
-  · have := (clean_bytes h).2 hv; omega
-  · have := (clean_bytes h).1; omega
+/-- Every accepted result is a fixed point, and the fixed points are exactly the accepted results. -/
+theorem idem_iff (r : Bytes) : validate r = .ok r ↔ ∃ q, validate q = .ok r :=
+  ⟨fun h => ⟨r, h⟩, fun ⟨_, h⟩ => idem h⟩
 
-/-- The unrestricted statement is false of the model: 334 invalid bytes are accepted and come back as 334
-    times U+FFFD = 1002 bytes, which the second validation rejects.  (334 is the least such length:
-    `idem_partial` covers every input with `|q| + 2·bad ≤ 1000`, and `bad ≤ |q|`.)  The check runs this
-    witness on the real code on every run (monitor class `idem-invalid-utf8-expansion`). -/
-theorem idem_fails :
-    ∃ r, validate idemWitness = .ok r ∧ r.length = 1002 ∧ validate r = .error .toolong ∧
-      ¬ (∀ q r : Bytes, validate q = .ok r → validate r = .ok r) := by
-  obtain ⟨hok, hlen⟩ := validate_replicate_FF 334 (by omega) (by rw [maxQueryLength_eq]; omega)
-  have h2 := (idem_iff hok).2 (by omega)
-  refine ⟨_, hok, hlen, h2, fun hall => ?_⟩
-  have := hall _ _ hok
-  rw [h2] at this
-  cases this
+/-- The input that refuted idempotence before the repair of K01 — 334 bytes `FF`, then answered with
+    334 × U+FFFD = 1002 bytes — is accepted, comes back as 334 bytes `'?'`, and that text is a fixed point.
+    The same holds at the length limit (1000 invalid bytes).  The check runs the first input on the real
+    code on every run (monitor class `idem-invalid-utf8-expansion`). -/
+theorem idem_old_witness :
+    validate idemWitness = .ok (List.replicate 334 0x3F) ∧
+    validate (List.replicate 334 0x3F) = .ok (List.replicate 334 0x3F) ∧
+    validate (List.replicate 1000 0xFF) = .ok (List.replicate 1000 0x3F) ∧
+    validate (List.replicate 1000 0x3F) = .ok (List.replicate 1000 0x3F) := by
+  have h1 := validate_replicate_FF 334 (by omega) (by rw [maxQueryLength_eq]; omega)
+  have h2 := validate_replicate_FF 1000 (by omega) (by rw [maxQueryLength_eq]; omega)
+  exact ⟨h1, idem h1, h2, idem h2⟩
 
 /-! ## Padding (used by C20) -/
 
@@ -296,9 +294,20 @@ example : ∃ q : Bytes, q.length = 1001 ∧ validate q = .error .toolong := by
   rw [h]
   have : isSpace 0x61 = false := by decide
   simp [blank, Rune.isBad, Rune.val, this]
--- invalid bytes are accepted and become U+FFFD; an overlong "space" C0 A0 is two invalid bytes, not a space
-example : validate [0x61, 0xFF] = .ok [0x61, 0xEF, 0xBF, 0xBD] := by decide
-example : validate [0xC0, 0xA0] = .ok [0xEF, 0xBF, 0xBD, 0xEF, 0xBF, 0xBD] := by decide
+-- invalid bytes are accepted and become '?' (one byte each); an overlong "space" C0 A0 is two invalid bytes, not
+-- a space; a genuine U+FFFD (EF BF BD) is left alone
+example : validate [0x61, 0xFF] = .ok [0x61, 0x3F] := by decide
+example : validate [0xC0, 0xA0] = .ok [0x3F, 0x3F] := by decide
+example : validate [0xEF, 0xBF, 0xBD, 0xFF] = .ok [0xEF, 0xBF, 0xBD, 0x3F] := by decide
+-- why the invalid byte is not simply copied: the bytes around a removed control character must not join.
+-- "a" C2 01 80 "b" (C2 and 80 invalid on their own, C2 80 = U+0080 is a control character) ↦ "a??b", a fixed point;
+-- C2 01 A0 (C2 A0 = U+00A0 is white space) is accepted, as the property demands (U+FFFD U+FFFD is not blank) ↦ "??"
+example : validate [0x61, 0xC2, 0x01, 0x80, 0x62] = .ok [0x61, 0x3F, 0x3F, 0x62] := by decide
+example : validate [0x61, 0x3F, 0x3F, 0x62] = .ok [0x61, 0x3F, 0x3F, 0x62] := by decide
+example : validate [0xC2, 0x01, 0xA0] = .ok [0x3F, 0x3F] := by decide
+example : validate [0x61, 0xE2, 0x01, 0x80, 0x01, 0xA8, 0x62] = .ok [0x61, 0x3F, 0x3F, 0x3F, 0x62] := by decide
+-- invalid bytes alone are not blank, with white space and controls around them: " \x00\xff\t" ↦ "?"
+example : validate [0x20, 0x00, 0xFF, 0x09] = .ok [0x3F] := by decide
 -- the hypotheses of pad / pad_inner are satisfiable and the conclusions are not trivial
 example : validate (encodeGo [0x3000, 0x0D] ++ [0x6C, 0x73] ++ encodeGo [0x85, 0x20]) = .ok [0x6C, 0x73] := by decide
 example : validate ([0x61] ++ encodeGo [0x0D, 0x2028] ++ [0x62]) = .ok [0x61, 0x20, 0x62] := by decide
@@ -309,9 +318,10 @@ example (c : Nat) (hs : isSpace c = true) (hk : kept c = false) :
   rw [decodeGo_inner [c] (by intro x hx; simp at hx; subst hx; exact hs) (by simp)]
   have k1 : kept 0x61 = true := by decide
   have k2 : kept 0x62 = true := by decide
-  simp [stripCtl, decodeGo, decodeNat, decodeSkip, decode1, Rune.val, List.filter_cons, hk, k1, k2]
--- idempotence where it holds: "ls -la"
+  simp [stripCtl_eq, decodeGo, decodeNat, decodeSkip, decode1, Rune.out, hk, k1, k2]
+-- idempotence: "ls -la" is a fixed point; so is the result of an input with invalid bytes and controls
 example : validate [0x6C, 0x73, 0x20, 0x2D, 0x6C, 0x61] = .ok [0x6C, 0x73, 0x20, 0x2D, 0x6C, 0x61] := by decide
+example : validate [0x3F] = .ok [0x3F] := by decide
 -- limits
 example : validateLimit 0 = .ok defaultLimit ∧ validateLimit 1 = .ok 1 ∧ validateLimit 100 = .ok 100 ∧
     validateLimit 101 = .error 100 ∧ validateLimit (-1) = .error 0 := by decide
